@@ -111,7 +111,10 @@ def run(ctx):
                 cnt_term = m.group(2)
         g_scan = None
         for d in p.decisions:
-            if d[0] == "try" and d[2] == "ok":
+            if d[0] == "try" and d[2] == "ok" and re.match(
+                    r"^std::iter::Iterator::collect\(std::iter::Iterator::map\((std::iter::Iterator::enumerate\()?core::slice::<impl \[T\]>::iter\(toks\)\)?, closure<\{closure#\d+\}>\)\)$",
+                    show(d[1])):
+                # the scan closure is applied to EVERY token, in order (no filter / skip / take / rev in between)
                 for c in _closures(d[1]):
                     b = fb.bodies.get(c.path)
                     if b is not None and any(r.mut for r in []) is False and c.caps and any(
